@@ -90,3 +90,30 @@ theorem two_nodes_usart (pad : Pad) (es : List Event) (hwf : ∀ e ∈ es, e.WF 
   exact end_to_end_usart pad es hwf nodeA.addr b handlers s hs'
 
 end Ross
+
+namespace Ross
+
+/-- **C01, both nodes in the model (CAN):** node `a` sends every event with `send_packet` over a CAN controller whose
+mailboxes may be busy any number of times but never report a displaced frame (`rs`); node `b` polls a controller that
+delivers exactly the frames node `a`'s controller accepted, with "no frame yet" anywhere (`s`). -/
+theorem two_nodes_can (pad : Pad) (es : List Event) (hwf : ∀ e ∈ es, e.WF ∧ (encode pad e).data.length ≤ 28672)
+    (nodeA : Proto) (hA : ∀ h ∈ nodeA.handlers, h.2.sends = []) (hlog : nodeA.log = [])
+    (rs : List TxResp) (hrs : ∀ r ∈ rs, r ≠ .displaced)
+    (b : UInt16) (handlers : List (Nat × Handler)) (s : List CanItem)
+    (hs : s.filter isCanFrame =
+      (canSendMany ((txOf (nodeA.sendAll (es.map (encode pad))).log).map canWire) rs).1.map .frame) :
+    let rx : Proto := ⟨b, handlers, (canPolls none s).map toRx, [], []⟩
+    callsOf rx.tickAll.log =
+      (es.filter (routed nodeA.addr)).flatMap (fun e =>
+        (recipients handlers (e.receiver == b || e.receiver == BROADCAST)).map fun h => (h.token, encode pad e)) ∧
+    ∀ e ∈ es, decode e.kind (encode pad e) = .ok e := by
+  have htx := sendAll_tx pad nodeA hA es
+  rw [hlog] at htx
+  simp only [txOf, List.filterMap_nil, List.nil_append] at htx
+  have htx' : txOf (nodeA.sendAll (es.map (encode pad))).log = (es.filter (routed nodeA.addr)).map (encode pad) := htx
+  rw [htx', canSendMany_exact _ rs hrs] at hs
+  have hs' : s.filter isCanFrame = (((es.filter (routed nodeA.addr)).map (encode pad)).flatMap canWire).map .frame := by
+    rw [hs]; simp [List.flatMap, List.map_map]
+  exact end_to_end_can pad es hwf nodeA.addr b handlers s hs'
+
+end Ross
